@@ -5,18 +5,11 @@ import "math"
 // Functions that are OUTSIDE the go2coq subset: the translator must refuse each of them with
 // a message naming the construct (bad_expect.txt); translator/selftest.sh checks that.
 
-func BadSqrt(x float64) float64 { return math.Sqrt(x) }
+func BadSqrt(x float64) float64 { return math.Log(x) }
 
 func BadMap(k int) float64 {
 	m := map[int]float64{1: 2}
 	return m[k]
-}
-
-func BadWhile(x float64) float64 {
-	for x < 10 {
-		x *= 2
-	}
-	return x
 }
 
 func BadBreak(xs []int) int {
@@ -64,7 +57,7 @@ func BadRecursion(n int) int {
 }
 
 func BadGo(x float64) float64 {
-	go BadSqrt(x)
+	go WhileDouble(x)
 	return x
 }
 
@@ -86,3 +79,24 @@ func (o *other) set(a *Acc) { a.S = o.v }
 func BadOtherPtr(a *Acc, o *other) {
 	o.set(a)
 }
+
+// a call of a function with fuel nested in an expression
+func BadFuelExpr(n int) int { return 2 * Collatz(n) }
+
+func BadWhileBreak(x float64) float64 {
+	for x < 10 {
+		if x < 0 {
+			break
+		}
+		x *= 2
+	}
+	return x
+}
+
+// one opaque interface method on two interface values
+func BadIfaceTwo(a, b Counter) int { return a.Count(1) + b.Count(2) }
+
+func BadAssert(v interface{}) float64 { return v.(float64) }
+
+// the opaque name cntf stands for Counter.Count (int -> int) and for math.Sqrt (float -> float)
+func BadOpaqueClash(c Counter, x float64) float64 { return math.Sqrt(x) + float64(c.Count(1)) }
